@@ -261,6 +261,12 @@ func (im *Impl) Do(c Cmd) Res {
 		return Res{OK: true}
 	case "big":
 		return Res{OK: true, S: string(Pattern(c.Seed, c.N)), N: c.N}
+	case "bigascii":
+		b := make([]byte, c.N)
+		for i := range b {
+			b[i] = byte('a' + (i*7+c.Seed)%26)
+		}
+		return Res{OK: true, S: string(b), N: c.N}
 	case "serve":
 		im.Broker.ServeWho(c.ID, c.S)
 		return Res{OK: true}
